@@ -3,7 +3,7 @@
 (* action per iteration of the parsing loop, the stable sort, one action per  *)
 (* iteration of the selection loop.  Explored exhaustively over every header  *)
 (* of at most two items over Items, and of exactly three items over           *)
-(* SmallItems (thorough: three over Items).  The same run prints every        *)
+(* SmallItems (thorough: over MidItems).  The same run prints every           *)
 (* header (Emit); the real function is then executed on all of them and       *)
 (* judged by I18nTable_Trace.                                                 *)
 (*                                                                           *)
@@ -17,7 +17,7 @@
 (* the POSTCONDITION ControlsBite).  Run with one worker.                     *)
 EXTENDS I18nTable, Json
 
-CONSTANTS Full3         \* TRUE: three-item headers over all Items
+CONSTANTS Full3         \* TRUE: three-item headers over MidItems (32 items), FALSE: over SmallItems (12 items)
 
 VARIABLES impl, hdr, pc, n, cands, result
 vars == <<impl, hdr, pc, n, cands, result>>
@@ -33,8 +33,11 @@ Qs   == {"", "1", "0.9", "0.5", "0", "x"}
 Items == [tag : Tags, q : Qs]
 SmallItems == [tag : {<<"e", "n">>, <<"f", "r", "-", "C", "A">>, <<"d", "e">>, <<"*">>}, q : {"", "0.5", "0"}]
 
+MidItems   == [tag : {<<"e", "n">>, <<"f", "r">>, <<"j", "a">>, <<"d", "e">>, <<"f", "r", "-", "C", "A">>,
+                      <<"E", "N", "-", "u", "s">>, <<"*">>, <<"z", "z", "z">>}, q : {"", "0.9", "0", "x"}]
+
 Headers == {<<>>} \cup {<<a>> : a \in Items} \cup {<<a, b>> : a, b \in Items}
-           \cup {<<a, b, c>> : a, b, c \in (IF Full3 THEN Items ELSE SmallItems)}
+           \cup {<<a, b, c>> : a, b, c \in (IF Full3 THEN MidItems ELSE SmallItems)}
 
 Init == /\ TLCSet(8, FALSE) /\ TLCSet(9, FALSE)
         /\ impl \in Impls /\ hdr \in Headers
